@@ -794,6 +794,13 @@ def rule_S6(ctx):
                 n_ok = ev2.ev(subs[i][0].args[0]) == A(rp[2])
                 ok = ok and n_ok
             ctx.ob("S6", subs[i][0], "SectorStream reads a sector piece only right after an absolute seek to its address", ok, "" if ok else det, inst="read_sector")
+        if reads:
+            # what _read_sector hands back is what the medium returned for this very request (no remembered bytes): a short
+            # medium read therefore reaches the caller's length check
+            want_ret = evaluator(ctx, rs, subs[reads[-1]][1]).ev(subs[reads[-1]][0]).key()
+            okr = p.ret is not None and p.ret.key() == want_ret
+            ctx.ob("S6", p.ret_node, "_read_sector returns exactly the bytes the substream returned for this request", okr,
+                   "" if okr else f"returns `{p.ret.key()[:120] if p.ret is not None else None}`", inst="read_sector-returns")
         if not reads:
             ctx.ob("S6", rs, "SectorStream._read_sector reads the substream", False, "no substream read on a return path", inst="read_sector")
     # who may call the raw readers
